@@ -29,7 +29,9 @@ LEVEL = ("structural clauses: under every assignment of the conditions (those ar
          "empty_response(...) without reaching property_from_data; construct-or-cast; a failing type check of a union member aborts decoding only when "
          "nothing can follow it (truth table, flag found by role); _build_response forwards status, content, headers, parsed; "
          "blocking/asyncio parity; in the scenario of an invalid status key every path ends the iteration with a diagnostic recorded and "
-         "no response added; reference resolution converges (shared with C20).")
+         "no response added; reference resolution converges (shared with C20); the source and the schema of a response come from one media "
+         "type (inductive invariant of the selecting loop, provenance tags); the builder renders each operation's module from that "
+         "operation (shared with C16); the async httpx client is constructed with the arguments of the blocking one.")
 
 
 # ---- helpers -----------------------------------------------------------------------------------------------------------------
@@ -144,6 +146,57 @@ def _python_of(frs: list) -> ast.Module | None:
         return ast.parse("".join(f.text if f.kind == "data" else "__expr__" for f in frs))
     except SyntaxError:
         return None
+
+
+def _generated_module(jx: Any, template: str) -> "ast.Module | None":
+    """the Python module a template writes (skeleton: macros inlined with the arguments of their call sites, holes as placeholders)"""
+    from ..skeleton import SkelWalker, to_lines
+    from ..skelscan import HOLE, OPQ
+
+    text = "\n".join(to_lines(SkelWalker(jx, frozenset()).walk_template(template))[0])
+    text = re.sub(HOLE + r"(\d+)" + HOLE, r"H_\1", text)
+    text = re.sub(OPQ + r"(\d+)" + OPQ, r"O_\1", text)
+    try:
+        return ast.parse(text)
+    except (SyntaxError, ValueError):
+        return None
+
+
+def _call_signature(c: ast.Call, lc: Locals) -> "dict[str, str]":
+    """what a call passes, by parameter: keyword -> value text (a local reads as its single definition), positional arguments by index,
+    `**d` expanded when d is a dict literal / dict(...) (directly or through a local), else kept as `**<text>`"""
+    out = {f"#{i}": norm(_follow(a, lc)) for i, a in enumerate(c.args)}
+    for k in c.keywords:
+        v = _follow(k.value, lc)
+        if k.arg is not None:
+            out[k.arg] = norm(v)
+        elif isinstance(v, ast.Dict) and all(isinstance(x, ast.Constant) and isinstance(x.value, str) for x in v.keys):
+            out.update({x.value: norm(_follow(y, lc)) for x, y in zip(v.keys, v.values)})
+        elif isinstance(v, ast.Call) and call_name(v) == "dict" and not v.args and all(x.arg is not None for x in v.keywords):
+            out.update({x.arg: norm(_follow(x.value, lc)) for x in v.keywords})
+        else:
+            out[f"**{norm(v)}"] = ""
+    return out
+
+
+class _UnderRule:
+    """a Report seen through another rule id: lets a rule that another property already states (and keeps hardening) be claimed here under
+    this property's own id, with the same construct keys, instead of a second implementation that would drift"""
+
+    def __init__(self, rep: Report, rule: str) -> None:
+        self._rep, self._rule = rep, rule
+
+    def __getattr__(self, name: str) -> Any:
+        return getattr(self._rep, name)
+
+    def check(self, cond: bool, rule: str, construct: str, *a: Any, **k: Any) -> bool:
+        return self._rep.check(cond, self._rule, construct, *a, **k)
+
+    def fail(self, rule: str, construct: str, *a: Any, **k: Any) -> None:
+        self._rep.fail(self._rule, construct, *a, **k)
+
+    def ok(self, rule: str, construct: str, *a: Any, **k: Any) -> None:
+        self._rep.ok(self._rule, construct, *a, **k)
 
 
 # error handlers of bytes.decode that never raise
@@ -1000,7 +1053,7 @@ def run(rep: Report, ctx: Any) -> str:
             outs = Walker(rfd, axiom=lambda e, st_, w, attr=attr, val=val: val if reads(e, attr) else None, event=r_event, inline=r_helpers).run()
         except TooComplex as e:
             rep.require(False, f"paths of response_from_data few enough to follow ({e})")
-        rel = [o for o in outs if marker in o.flags and o.kind != "iter-end"]
+        rel = [o for o in outs if marker in o.flags and o.final]
         rep.require(rel, f"path of response_from_data that reads `.{attr}`")
         n_paths += len(rel)
         for o in rel:
@@ -1015,6 +1068,81 @@ def run(rep: Report, ctx: Any) -> str:
               lhs=not_empty[:6], rhs="every path that has read a missing / empty `.content`, or a None `.media_type_schema`, returns "
                                      "empty_response(...) without calling property_from_data")
     rep.floor("empty_response_paths", n_paths, 3)      # counted by role: path ends per scenario, at least one each
+
+    # ---- R04.10: the source and the schema of a response belong to one media type ------------------------------------------------
+    # A response offered in several representations is decoded from ONE of them: the source (classifier applied to the media type key)
+    # and the schema (`.media_type_schema` of the media type object) must come from the same (key, object) pair of the content mapping.
+    # Stated as an inductive invariant of every loop that classifies its own key and reads its own object's schema (in the response
+    # parser or a private helper): on every path through one iteration - followed from a state in which everything the loop rebinds is
+    # unknown - that ends the iteration, leaves the loop or returns, the variables that outlive the loop (and a returned value) hold a
+    # source of THIS iteration if and only if they hold the schema of THIS iteration.  A source that is None is no source.  Both values
+    # are followed by provenance tags through copies, tuples and tests, not by name.  A comprehension whose element is built from both is
+    # paired by construction.
+    rep.rule("R04.10", "the media type whose key is classified is the media type whose schema is decoded: on every path through one "
+                       "iteration of a loop over the content's (key, media type) pairs, what outlives the iteration holds this "
+                       "iteration's source iff it holds this iteration's schema")
+    selections = 0
+    unpaired: list[str] = []
+    for g in [rfd, *r_helpers]:
+        lc_g = Locals(g.node)
+
+        def of_target(e: ast.AST, targets: set[str], lc_g: Locals = lc_g) -> bool:
+            names = {n.id for n in ast.walk(e) if isinstance(n, ast.Name)}
+            for n in list(names):
+                if n not in targets and len(lc_g.values_of(n)) == 1:     # one level through a local: `key = content_type.lower()`
+                    names |= {x.id for x in ast.walk(lc_g.values_of(n)[0]) if isinstance(x, ast.Name)}
+            return bool(names & targets)
+
+        def classified(c: ast.AST, targets: set[str]) -> bool:
+            return isinstance(c, ast.Call) and call_name(c).rsplit(".", 1)[-1] == sb.name and \
+                any(of_target(a, targets) for a in [*c.args, *[k.value for k in c.keywords]])
+
+        def schema_of(a: ast.AST, targets: set[str]) -> bool:
+            return reads(a, "media_type_schema") and of_target(a.value, targets)
+
+        for comp in [n for n in ast.walk(g.node) if isinstance(n, (ast.ListComp, ast.SetComp, ast.GeneratorExp, ast.DictComp))]:
+            targets = {n.id for gen in comp.generators for n in ast.walk(gen.target) if isinstance(n, ast.Name)}
+            elt_parts = [comp.key, comp.value] if isinstance(comp, ast.DictComp) else [comp.elt]
+            has_src = any(classified(x, targets) for part in [*elt_parts, *[i for gen in comp.generators for i in gen.ifs]] for x in ast.walk(part))
+            has_sch = any(schema_of(x, targets) for part in elt_parts for x in ast.walk(part))
+            if has_src and has_sch:
+                selections += 1
+        for lp in [n for n in ast.walk(g.node) if isinstance(n, (ast.For, ast.AsyncFor))]:
+            targets = {n.id for n in ast.walk(lp.target) if isinstance(n, ast.Name)}
+            body_ids = {id(x) for part in lp.body for x in ast.walk(part)}
+            src_ids = {id(x) for part in lp.body for x in ast.walk(part) if classified(x, targets)}
+            sch_ids = {id(x) for part in lp.body for x in ast.walk(part) if schema_of(x, targets)}
+            if not (src_ids and sch_ids):
+                continue
+            selections += 1
+            live = {n.id for n in ast.walk(g.node) if isinstance(n, ast.Name) and isinstance(n.ctx, ast.Load) and id(n) not in body_ids}
+            try:
+                outs = Walker(g, axiom=lambda e, st_, w, src_ids=src_ids, sch_ids=sch_ids:
+                              V(tag="source") if id(e) in src_ids else V(tag="schema") if id(e) in sch_ids else None,
+                              inline=[h for h in private_callees(ix, g) if h.name != sb.name]).run()
+            except TooComplex as e:
+                rep.require(False, f"paths of {short(g)} few enough to follow ({e})")
+            for o in outs:
+                if o.kind in ("iter-end", "break") and o.node is lp:
+                    held: set[str] = set()
+                    for nm in live:
+                        if nm in o.st.env:
+                            held |= o.st.env[nm].tags()
+                    how = "ends an iteration" if o.kind == "iter-end" else "leaves the loop"
+                elif o.kind == "return" and id(o.node) in body_ids:
+                    held, how = o.value.tags(), "returns from the loop"
+                else:
+                    continue
+                if ("source" in held) != ("schema" in held):
+                    msg = f"{short(g)}: a path {how} with this media type's {'source' if 'source' in held else 'schema'} but not its " \
+                          f"{'schema' if 'source' in held else 'source'} (line {getattr(o.node, 'lineno', '?')})"
+                    if msg not in unpaired:
+                        unpaired.append(msg)
+    rep.check(not unpaired, "R04.10", "response_from_data::source-and-schema-from-one-media-type",
+              "the source and the schema of a response can come from different media types of its content: the body is read one way and "
+              "decoded as the other representation's type; " + "; ".join(unpaired[:2]), where(rfd, rfd.node), lhs=unpaired[:4],
+              rhs="what outlives an iteration holds the iteration's source iff it holds the iteration's schema")
+    rep.floor("media_type_selections", selections, 1)
 
     # ---- R04.3 ----------------------------------------------------------------------------------------------------------
     R = "endpoint.responses[*]"
@@ -1143,5 +1271,48 @@ def run(rep: Report, ctx: Any) -> str:
     rep.check(not leak, "R04.7", "response_from_data::reference-branch-rebinds-only-data",
               f"resolving a $ref'd component response also changes {leak}: later operations referencing the same component lose the response",
               where(rfd, branch), lhs=sorted(assigned), rhs="{data}")
+    # ---- R04.11: the asyncio variants talk through a transport configured like the blocking one ------------------------------------
+    # "blocking and asyncio variants agree" needs more than the parity of the endpoint functions: both get the status they decode from
+    # an httpx client the generated Client class builds, and every option that shapes the exchange (base URL, cookies, headers, timeout,
+    # TLS verification, redirects, the user's httpx_args) reaches httpx.AsyncClient(...) exactly as it reaches httpx.Client(...).  Read on
+    # the classes as client.py.jinja writes them (macros inlined): per class, the constructions of the two are compared parameter by
+    # parameter - keyword order, a shared dict of arguments or a local in between make no difference.
+    rep.rule("R04.11", "in every class client.py.jinja writes, httpx.AsyncClient(...) is constructed with exactly the arguments (names and "
+                       "values, ** expansions included) httpx.Client(...) is constructed with")
+    rep.require("client.py.jinja" in jx.templates, "client.py.jinja")
+    cmod = _generated_module(jx, "client.py.jinja")
+    rep.require(cmod is not None, "the module client.py.jinja writes, as Python")
+    n_transports = 0
+    for kls in [n for n in cmod.body if isinstance(n, ast.ClassDef)]:
+        built: dict[str, list[dict[str, str]]] = {}
+        for m in [x for x in ast.walk(kls) if isinstance(x, (ast.FunctionDef, ast.AsyncFunctionDef))]:
+            lc_m = Locals(m)
+            for c in calls_in(m):
+                if call_name(c) in ("httpx.Client", "httpx.AsyncClient"):
+                    sig = _call_signature(c, lc_m)
+                    if sig not in built.setdefault(call_name(c), []):
+                        built[call_name(c)].append(sig)
+        if not built:
+            continue
+        n_transports += 1
+        blocking, asyncio_ = built.get("httpx.Client", []), built.get("httpx.AsyncClient", [])
+        same = bool(blocking) and bool(asyncio_) and all(x in asyncio_ for x in blocking) and all(x in blocking for x in asyncio_)
+        diff = sorted({k for x in blocking for y in asyncio_ for k in set(x) | set(y) if x.get(k) != y.get(k)})
+        rep.check(same, "R04.11", f"client.py.jinja::{kls.name}::async-transport-built-like-blocking",
+                  f"{kls.name} configures its httpx.AsyncClient differently from its httpx.Client ({', '.join(diff) or 'one of them is never built'}): "
+                  "the asyncio variants can see another status / response than the blocking ones for the same call",
+                  where=f"{PKG}/templates/client.py.jinja", lhs=asyncio_, rhs=blocking)
+    rep.floor("client_classes_with_transports", n_transports, 1)
+
+    # ---- R04.9: the module of an operation is rendered from that operation (shared with C16) ---------------------------------------
+    # Everything above is about what the endpoint template writes for the endpoint it is given; the statuses an operation documents are
+    # decoded by its module only if the text written to the operation's path is, on every path of the builder, the template rendered
+    # with that very endpoint (not a text cached under a coarser key, not another collection's rendering).  C16 states exactly this
+    # for generate_all_tags (symbolic execution of the Project methods that write text files); it is claimed here under C04's id.
+    from .c16 import _r164_builder
+
+    rep.rule("R04.9", "the builder writes, to the path computed from an element of <collection>.endpoints, on every path the endpoint "
+                      "template rendered with that very element (shared with C16's R16.4 builder clause)")
+    _r164_builder(_UnderRule(rep, "R04.9"), ix)
     rep.not_decided += ["what httpx returns; decoding of values (C02)"]
     return LEVEL
